@@ -80,7 +80,7 @@ class C02(Check):
             gen = docs.document(reg, kinds=['single'] * 2 + ['batch'] * 8,
                                 flavours=['valid'] * 12 + ['unknown-method'] * 2 + ['deviant', 'non-object'])
             return st.builds(
-                lambda text, beh, mbs, codec: {'dispatcher': kind, 'plain': plain, 'max_batch_size': batch_limit(text, mbs), 'behaviours': beh, 'text': text, 'codec': codec},
+                lambda text, beh, mbs, codec: {'dispatcher': kind, 'plain': plain, 'sequential': kind == 'async' and (len(beh) + len(codec)) % 3 == 0, 'max_batch_size': batch_limit(text, mbs), 'behaviours': beh, 'text': text, 'codec': codec},
                 gen, stdreg.behaviours(True), st.sampled_from(BATCH_LIMITS + ['-1', '0', '+1']), st.sampled_from(CODEC_CHOICES),
             )
         return st.one_of(for_kind('sync'), for_kind('async'), for_kind('async', True))
@@ -128,7 +128,7 @@ class C02(Check):
                   for v in ('2', '2.', '.0', '0', '.', '', '2.00')],
                 *[{**base, 'text': t({'jsonrpc': v, 'method': 'noargs', 'id': 7})} for v in ('2', '', '.0')],
             ]
-        return out
+        return out + stdreg.exception_corpus('MARKER-c02-zq')
 
     # -- run -------------------------------------------------------------------------------------------
 
